@@ -123,7 +123,16 @@ def reinsert : List Nat → Nat → Nat
   | [], a => a
   | k :: ks, a => if k ≤ a then reinsert ks (a + 1) else reinsert ks a
 
-def sortNat (l : List Nat) : List Nat := sortBy (fun (a b : Nat) => a ≤ b) l
+def sortNat0 (l : List Nat) : List Nat := sortBy (fun (a b : Nat) => a ≤ b) l
+
+/-- `Vec::dedup`: drop an element equal to its predecessor -/
+def dedupAdj : List Nat → List Nat
+  | [] => []
+  | [x] => [x]
+  | x :: y :: rest => if x == y then dedupAdj (y :: rest) else x :: dedupAdj (y :: rest)
+
+/-- `sorted_keys.sort_unstable(); sorted_keys.dedup()` -/
+def sortNat (l : List Nat) : List Nat := dedupAdj (sortNat0 l)
 
 
 mutual
